@@ -207,9 +207,22 @@ Definition check_span (c : c04) (final_edges : list (list Qc)) : bool :=
           end)
        (combine (a_axes fin) cols) final_edges.
 
-Definition check_C04 (c : c04) (obs : sx) : bool :=
-  match obs with
-  | LL [LL l; batch] =>
+(** span clause without arithmetic: the first and the last final bin are needed, i.e. each holds an entered value or is an
+    end bin the histogram started with (edges as physt computed them) *)
+Definition needed_ends (init final : list Qc) (vals : list Qc) : bool :=
+  match final with
+  | e0 :: e1 :: _ =>
+      let en := last final 0 in
+      let em := nth (length final - 2) final 0 in
+      (existsb (fun v => Qcleb e0 v && Qcltb v e1) vals || match init with i0 :: _ :: _ => Qceqb i0 e0 | _ => false end) &&
+      (existsb (fun v => Qcleb em v && Qcltb v en) vals || match init with _ :: _ :: _ => Qceqb (last init 0) en | _ => false end)
+  | _ => true end.
+Definition check_span_float (c : c04) (init_edges final_edges : list (list Qc)) : bool :=
+  let nd := length (a_axes (z_init c)) in
+  let cols := entered_cols nd (z_ops c) in
+  all2 (fun p vals => needed_ends (fst p) (snd p) vals) (combine init_edges final_edges) cols.
+
+Definition check_C04_core (c : c04) (l : list sx) (batch : sx) : bool :=
       check_aruns (z_exact c) (sumq (a_freq (z_init c))) (z_init c) (z_ops c) l &&
       match batch with SS "skip" => true | SS "T" => true | _ => false end &&
       (if z_exact c then
@@ -219,7 +232,21 @@ Definition check_C04 (c : c04) (obs : sx) : bool :=
                                                 then check_span c ed else true
                                    | None => false end
          | _ => true end
-       else true)
+       else true).
+
+Definition check_C04 (c : c04) (obs : sx) : bool :=
+  match obs with
+  | LL [LL l; batch; init] =>
+      check_C04_core c l batch &&
+      match d_list (d_list d_q) init, last l (LL []) with
+      | Some ie, LL [_; ed; _; _; _] =>
+          match d_list (d_list d_q) ed with
+          | Some fe => if forallb (fun o => match snd o with RRefused => false | _ => true end) (arun (z_init c) (z_ops c))
+                       then check_span_float c ie fe else true
+          | None => false end
+      | Some _, _ => true
+      | None, _ => false end
+  | LL [LL l; batch] => check_C04_core c l batch
   | _ => false end.
 
 Definition judge_C04 (case obs : sx) : sx :=
